@@ -186,7 +186,10 @@ def check_malformed(ctx, case):
 
 
 def dispatch(ctx, case):
-    if case.get("damage"):
+    if str(case.get("kind", "")).startswith("custom-"):
+        from checks import c01_custom
+        c01_custom.replay_custom(ctx, case)
+    elif case.get("damage"):
         check_malformed(ctx, case)
     else:
         check_object(ctx, case)
@@ -199,7 +202,8 @@ def run(ctx):
                 "integers, nesting depth up to 4; a malformed stream (wrong code / kind / key / arity); non-trivial = "
                 "distinct (class, seed) whose encoding succeeded")
     ctx.assumptions = ["classes with a hand-written codec are opaque leaves of the generic model (their own round trip is "
-                       "judged directly on the implementation)",
+                       "judged directly on the implementation); Value / MultiAsset / Asset, TransactionOutput and the set-valued "
+                       "fields of TransactionBody have their own models (checks/c01_custom.py)",
                        "HardForkInitiationAction / typed PlutusData / signing keys are outside this generator (see DESIGN.md)"]
     rng = ctx.rng
     n = ctx.budget(2600, 60000)
@@ -210,6 +214,9 @@ def run(ctx):
     for i in range(ctx.budget(500, 10000)):
         name = rng.choice(classes)
         dispatch(ctx, {"cls": name, "seed": f"{ctx.seed}/m{i}", "damage": rng.choice(["code", "drop", "extra", "kind", "key", "elem"])})
+    # classes with a hand-written codec that have their own Lean model (Value, TransactionOutput, TransactionBody set fields)
+    from checks import c01_custom
+    c01_custom.run_custom(ctx)
     cov = ctx.extra.pop("_cov", {})
     ctx.extra["classes_in_theorem_scope"] = sorted(ctx.extra.get("classes_in_theorem_scope", ()))
     ctx.extra["union_alternatives_hit"] = sum(1 for k in cov if k.startswith("alt:"))
